@@ -15,7 +15,7 @@ Decision rule of every check:
 """
 import fcntl
 import hashlib
-import json
+import json, shutil
 import os
 import re
 import subprocess
@@ -526,6 +526,37 @@ def check(prop, tier, seed, replay=None):
         except Exception as e:  # infrastructure
             corr_error = (corr_error or "") + " extra step failed: %r" % (e,)
 
+    # -- race detector stage (concurrency properties) ------------------------------
+    race_info = None
+    if cfg.get("race") and corr_built and not replay:
+        rc_cfg = cfg["race"]
+        race_bin = os.path.join(BUILD, "harness-race")
+        renv = goenv()
+        renv["CGO_ENABLED"] = "1"
+        rcb, outb = run(["go", "build", "-race", "-tags", "verif", "-o", race_bin, "."], cwd=HARNESS_SRC, env=renv, timeout=1800)
+        if rcb != 0 and re.search(r"requires cgo|C compiler|gcc|exec: \"", outb):
+            # no C toolchain in this environment: the stage cannot run (recorded, not an alarm)
+            race_info = {"skipped": "race-detector build unavailable: " + outb[-300:]}
+        elif rcb != 0:
+            corr_error = (corr_error or "") + " race-detector build of the harness failed: " + outb[-800:]
+        else:
+            rdir = os.path.join(BUILD, "race-" + prop)
+            shutil.rmtree(rdir, ignore_errors=True)
+            os.makedirs(rdir, exist_ok=True)
+            nr = rc_cfg["n"][tier if tier in rc_cfg["n"] else "quick"]
+            env = dict(os.environ)
+            env["GORACE"] = "halt_on_error=0"
+            rcr, outr = run([race_bin, rc_cfg["cmd"], "-seed", str(seed), "-n", str(nr), "-tier", tier, "-per", "100000",
+                             "-out", os.path.join(rdir, "R")], timeout=1800, env=env)
+            nraces = outr.count("WARNING: DATA RACE")
+            race_info = {"cmd": "go build -race ... && harness-race %s -n %d" % (rc_cfg["cmd"], nr), "races_reported": nraces, "rc": rcr}
+            shutil.rmtree(rdir, ignore_errors=True)
+            if nraces > 0 or rcr not in (0,):
+                i0 = outr.find("WARNING: DATA RACE")
+                corr_error = (corr_error or "") + " the Go race detector reported %d data race(s) while the harness drove the real code (rc=%d): %s" % (
+                    nraces, rcr, outr[i0:i0 + 1500] if i0 >= 0 else outr[-800:])
+                log(corr_error)
+
     # -- decide ---------------------------------------------------------------
     known = load_known()
     reported_known = set()
@@ -589,6 +620,7 @@ def check(prop, tier, seed, replay=None):
         "obligations": max(nthm, 1) + certs_total,
         "discharged": discharged + certs_ok,
         "numeric_certificates": {"emitted": certs_total, "proved_by_interval": certs_ok},
+        "race_detector": race_info,
         "checker_cmd": "make -C coq -j16 %s && coqc -Q . GA Props/%s.v  (Coq 8.16.1, full .vo build)"
                        % (" ".join(targets), prop),
         "trusted_base": tb,
